@@ -153,6 +153,12 @@ def snapshot(st: State):
     def oid(o):
         return None if o is None else order.get(id(o), "?")
 
+    tensors = {}
+
+    def tid(t):
+        # run-stable identity of a tensor object: order of first appearance
+        return tensors.setdefault(id(t), len(tensors))
+
     snap = {}
     for g in graphs:
         snap[("g", oid(g))] = (
@@ -168,7 +174,7 @@ def snapshot(st: State):
         snap[("v", oid(v))] = (
             v.name, oid(v.producer()), _as_int(v.index()), sorted((oid(u.node), _as_int(u.idx)) for u in v.uses()), oid(v.graph),
             v.is_graph_input(), v.is_graph_output(), v.is_initializer(), repr(v.type), repr(v.shape),
-            None if v.const_value is None else (v.const_value.name, id(v.const_value)),
+            None if v.const_value is None else (v.const_value.name, tid(v.const_value)),
         )
     return snap
 
@@ -188,13 +194,13 @@ def seed(k: int) -> State:
         # flat graph: optional (None) input, a 2-output node, a detached extra node
         x = ir.Value(name="x")
         w = ir.Value(name="w", const_value=_tensor("w"))
-        n0 = ir.Node("", "A", [x, w], num_outputs=2, name="n0")
+        n0 = ir.Node("", "A", [x, w], num_outputs=3, name="n0")  # outputs: used, unused, used
         n1 = ir.Node("", "B", [n0.outputs[0], x], name="n1")
-        n2 = ir.Node("", "C", [n1.outputs[0], None], name="n2")
+        n2 = ir.Node("", "C", [n1.outputs[0], None, n0.outputs[2]], name="n2")
         g = ir.Graph([x], [n2.outputs[0]], nodes=[n0, n1, n2], initializers=[w], name="g0")
         extra = ir.Node("", "D", [x], name="e")
         free = ir.Value(name="free")
-        return State([g], [n0, n1, n2, extra], [x, w, n0.outputs[0], n0.outputs[1], n1.outputs[0], n2.outputs[0], extra.outputs[0], free])
+        return State([g], [n0, n1, n2, extra], [x, w, n0.outputs[0], n0.outputs[1], n0.outputs[2], n1.outputs[0], n2.outputs[0], extra.outputs[0], free])
     if k == 1:
         # If-subgraph capturing an outer value
         x = ir.Value(name="x")
@@ -225,11 +231,43 @@ def seed(k: int) -> State:
         g = ir.Graph([x, z], [x, n.outputs[0], n.outputs[0]], nodes=[n], initializers=[x], name="g3")
         free = ir.Value(name="free", const_value=_tensor("free"))
         return State([g], [n], [x, z, n.outputs[0], free])
+    if k == 4:
+        # every two-role combination: input+output, output+initializer, input+initializer
+        io = ir.Value(name="io")
+        oi = ir.Value(name="oi", const_value=_tensor("oi"))
+        ii = ir.Value(name="ii", const_value=_tensor("ii"))
+        n = ir.Node("", "N", [io, oi, ii], name="n")
+        g = ir.Graph([io, ii], [io, oi, n.outputs[0]], nodes=[n], initializers=[oi, ii], name="g4")
+        other = ir.Graph([], [], nodes=[], name="other")
+        return State([g, other], [n], [io, oi, ii, n.outputs[0]])
+    if k == 5:
+        # initializers in two scopes (main graph + If body)
+        x = ir.Value(name="x")
+        wo = ir.Value(name="w_outer", const_value=_tensor("w_outer"))
+        bo = ir.Value(name="b_outer", const_value=_tensor("b_outer"))
+        wi = ir.Value(name="w_inner", const_value=_tensor("w_inner"))
+        bi = ir.Value(name="bias_inner", const_value=_tensor("bias_inner"))
+        inner = ir.Node("", "Inner", [wi, bi, x], name="inner")
+        sub = ir.Graph([], [inner.outputs[0]], nodes=[inner], initializers=[wi, bi], name="body")
+        iff = ir.Node("", "If", [x], attributes=[ir.AttrGraph("then_branch", sub)], name="if")
+        m = ir.Node("", "M", [wo, bo], name="m")
+        g = ir.Graph([x], [iff.outputs[0], m.outputs[0]], nodes=[iff, m], initializers=[wo, bo], name="g5")
+        return State([g, sub], [inner, iff, m], [x, wo, bo, wi, bi, inner.outputs[0], iff.outputs[0], m.outputs[0]])
+    if k == 6:
+        # a dependency cycle (p <-> q) next to an unsorted but acyclic pair
+        x = ir.Value(name="x")
+        qo = ir.Value(name="q_out")
+        p = ir.Node("", "P", [qo], name="p")
+        q = ir.Node("", "Q", [p.outputs[0]], outputs=[qo], name="q")
+        late = ir.Node("", "Late", [x], name="late")
+        early = ir.Node("", "Early", [late.outputs[0]], name="early")
+        g = ir.Graph([x], [early.outputs[0]], nodes=[early, late, p, q], name="g6")
+        return State([g], [p, q, late, early], [x, qo, p.outputs[0], late.outputs[0], early.outputs[0]])
     raise ValueError(k)
 
 
-N_SEEDS = 4
-NAMES = ["x", "w", "fresh", "", None, "val_0", "z"]
+N_SEEDS = 7
+NAMES = ["x", "w", "fresh", "", None, "val_0", "z", "oi", "ii", "w_outer", "b_outer", "w_inner", "bias_inner"]
 
 
 def _pick(seq, i):
@@ -243,15 +281,16 @@ OPS = [
     "n.replace_input_with", "n.resize_inputs", "n.resize_outputs", "n.prepend", "n.append", "v.replace_all_uses_with",
     "in.append", "in.extend2", "in.insert", "in.pop", "in.remove", "in.clear", "in.setitem", "in.setslice", "in.delitem", "in.reverse", "in.imul",
     "out.append", "out.extend2", "out.insert", "out.pop", "out.remove", "out.clear", "out.setitem", "out.setslice", "out.delitem", "out.iadd",
-    "init.setitem", "init.pop", "init.delitem", "init.clear", "init.register", "init.update", "init.setdefault", "init.popitem", "init.add",
-    "v.rename", "Node()", "Node(outputs=)", "conv.replace_all_uses_with", "g.remove_safe_many",
+    "init.setitem", "init.pop", "init.delitem", "init.clear", "init.register", "init.update", "init.setdefault", "init.popitem", "init.add", "init.ior",
+    "v.rename", "Node()", "Node(outputs=)", "conv.replace_all_uses_with", "g.remove_safe_many", "conv.rename_values2", "conv.rename_values3",
 ]
 N_OPS = len(OPS)
 COLLECTION_OPS = [i for i, o in enumerate(OPS) if o.split(".")[0] in ("in", "out", "init")]
 NODE_OPS = [i for i, o in enumerate(OPS) if o.split(".")[0] in ("g", "n", "v", "conv") or o.startswith("Node")]
+RAISING_CAPABLE = list(range(len(OPS)))
 
 
-def apply(st: State, op: int, gi: int, a: int, b: int, c: int):
+def apply(st: State, op: int, gi: int, a: int, b: int, c: int, d: int = 0):
     """Perform operation `op`; returns the exception type name if the call raised, else None."""
     name = OPS[op]
     g = _pick(st.graphs, gi)
@@ -342,8 +381,15 @@ def apply(st: State, op: int, gi: int, a: int, b: int, c: int):
                 inits.popitem()
             elif m == "add":
                 inits.add(V(a))
+            elif m == "ior":
+                inits |= {V(a).name: V(a), V(c).name: V(c)}
         elif name == "v.rename":
             V(a).name = _pick(NAMES, b)
+        elif name == "conv.rename_values2":
+            ir_convenience.rename_values([V(a), V(b)], [_pick(NAMES, c) or "", _pick(NAMES, d) or ""])
+        elif name == "conv.rename_values3":
+            # three values, the third keeps a name derived from d: swaps / cycles / collisions arise from the selectors
+            ir_convenience.rename_values([V(a), V(b), V(c)], [V(b).name or "n1", V(c).name or "n2", _pick(NAMES, d) or ""])
         elif name == "Node()":
             n = ir.Node("", "New", [V(a), None if b < 0 else V(b)], graph=(g if c % 2 else None), name="new")
             st.nodes.append(n)
